@@ -157,7 +157,7 @@ func onlyFailureIs(errorStr string, text string) bool {
 		return true
 	}
 	for _, failure := range resp.Failures {
-		if !strings.Contains(failure.Message, text) {
+		if failure == nil || !strings.Contains(failure.Message, text) {
 			return false
 		}
 	}
